@@ -1,6 +1,7 @@
 """C08 unbiased compaction (DESIGN.md section 5 C08; A9): coin clauses."""
 import coin_rules as K
 import generic_lints
+import hazard_lints
 import cowrite
 
 
@@ -14,6 +15,7 @@ def run(facts, tier):
         ("sortedness couplings", lambda fa: cowrite.obligations(fa, ['kll_sketch', 'req_compactor', 'quantiles_sketch']), 8, "an item placed into level 0 / the buffer clears the sortedness flag that lets compaction skip sorting (halving an unsorted run is biased)"),
         ("merge peers", K.merge_peers, 1, "merge combines error parameters with the same field of the other sketch"),
         ("tautologies", lambda fa: generic_lints.tautologies(fa, ('kll/', 'req/', 'quantiles/')), 2, "no comparison / assignment / min-max with two identical operands, no if-else with identical arms"),
+        ("hazards", lambda fa: hazard_lints.hazards(fa, ('kll/', 'req/', 'quantiles/')), 2, "no 64-bit value silently narrowed at a call of a library function, no numeric_limits<floating>::min() as a lowest value, no random engine constructed inside a loop, no read of a moved-from parameter, no unguarded unsigned `x - c` loop bound (reviewed instances in spec/hazards.json)"),
         ("duplicate operands", lambda fa: generic_lints.duplicate_conjuncts(fa, ('kll/', 'req/', 'quantiles/')), 2, "no logical chain tests the same operand twice (copy-paste of the wrong peer)"),
         ("narrow shifts", lambda fa: generic_lints.narrow_variable_shift(fa, ('kll/', 'req/', 'quantiles/')), 1, "no count << level evaluated in 32 bits and only then widened to 64 bits (weights of large merged sketches wrap at 2^32)"),
     ):
